@@ -121,6 +121,27 @@ def run(ctx):
         if md != rsj:
             res.disagreements.append({"stream": "codec.decsub", "input": {"fl": fname, "b": rb},
                                       "model": md, "code": rsj})
+        # the public function entry point must agree with the Deserializer class
+        rf = H.real_decode_sub_fn(fname, rb)
+        if (rf is None) != (rs is None) or (rs is not None and (
+                list(rf.instructions) != list(rs.instructions) or rf.app_id != rs.app_id or
+                tuple(rf.netqasm_version) != tuple(rs.netqasm_version))):
+            res.failures.append({"what": "deserialize(data, flavour) decodes differently from Deserializer(flavour)",
+                                 "kf": None, "input": {"fl": fname, "request": rq}})
+        # decode-side history: edit the decoded objects in place, decode the same bytes again
+        if rs is not None and rng.random() < 0.5:
+            edited = False
+            first = H.real_decode_sub(fname, rb)
+            for i in (first.instructions if first is not None else []):
+                for o in i.operands:
+                    edited = H.mutate_operand_in_place(o, rng) or edited
+            again = H.real_decode_sub(fname, rb)
+            res.count("decode-after-editing-decoded-objects" if edited else "decode-twice")
+            if again is None or [H.instr_to_json(i) for i in again.instructions] != \
+                    [H.instr_to_json(i) for i in rs.instructions]:
+                res.failures.append({"what": "decoding the same bytes a second time (after the first result was edited "
+                                             "in place) gives a different subroutine", "kf": None,
+                                     "input": {"fl": fname, "request": rq}})
         ok = rs is not None and list(rs.instructions) == instrs and rs.app_id == app and \
             tuple(rs.netqasm_version) == tuple(ver)
         if not ok:
@@ -145,10 +166,15 @@ def run(ctx):
             return c(**{f.name: rng.choice(H.values_for(k, rng, 2)) for f, k in zip(fs, H.shape_of(c))})
 
         sub = H.Subroutine(instructions=[rnd() for _ in range(rng.randrange(1, 6))], app_id=rng.randrange(65536))
+        ent = [c for c in pool if any(k in ("entry", "slice") for k in H.shape_of(c))]
+        for _e in range(2):
+            c = rng.choice(ent)
+            fs = H.T.operand_fields(c)
+            sub.instructions.append(c(**{f.name: rng.choice(H.values_for(k, rng, 2)) for f, k in zip(fs, H.shape_of(c))}))
         steps = []
         for _step in range(rng.randrange(2, 6)):
             kind = rng.choice(["observe", "append", "replace_item", "set_field", "set_app", "pop", "len",
-                               "instantiate"])
+                               "instantiate", "edit_operand", "edit_operand"])
             steps.append(kind)
             try:
                 if kind == "observe":
@@ -166,6 +192,12 @@ def run(ctx):
                     sub.app_id = rng.randrange(65536)
                 elif kind == "instantiate":
                     sub.instantiate(app_id=rng.randrange(65536))
+                elif kind == "edit_operand":
+                    cands = [o for i in sub.instructions for o in i.operands]
+                    rng.shuffle(cands)
+                    for o in cands:
+                        if H.mutate_operand_in_place(o, rng):
+                            break
                 elif kind == "set_field" and sub.instructions:
                     i = sub.instructions[rng.randrange(len(sub.instructions))]
                     fs = H.T.operand_fields(type(i))
